@@ -889,3 +889,389 @@ func ruleConstantAccessorGuard(c *Ctx, rule string, short string) {
 	}
 	c.Ob(rule, short+"/guarded", nil, total >= 20, fmt.Sprintf("%d accessors applied directly to a constant's Value, %d of them under a kind or category test", total, guarded))
 }
+
+// ruleCurrentFrameDepth (N8): the debugger compares call depths of the frame that is current (Run.CurrEnv). Frames
+// are recycled through a pool and freeEnv does not reset CallDepth, so a function that makes a fresh or recycled
+// frame current (assigns a local frame to Run.CurrEnv and returns it) must assign that frame's CallDepth itself.
+func ruleCurrentFrameDepth(c *Ctx, rule string) {
+	pk := c.P.Pkg("fast")
+	if pk == nil {
+		c.Fatal("package fast not loaded")
+		return
+	}
+	info := pk.TypesInfo
+	n := 0
+	for _, fd := range c.P.FuncsOf("fast") {
+		if fd.Body == nil || fd.Type.Results == nil {
+			continue
+		}
+		locals := map[types.Object]bool{}
+		ast.Inspect(fd.Body, func(nd ast.Node) bool {
+			as, ok := nd.(*ast.AssignStmt)
+			if !ok || len(as.Lhs) != 1 || len(as.Rhs) != 1 || fieldOfStruct(info, as.Lhs[0], "fast", "Run") != "CurrEnv" {
+				return true
+			}
+			if id, ok := unparen(as.Rhs[0]).(*ast.Ident); ok {
+				if v, ok := info.Uses[id].(*types.Var); ok && v.Pos() > fd.Body.Pos() {
+					locals[v] = true
+				}
+			}
+			return true
+		})
+		for v := range locals {
+			returned, assigned := false, false
+			ast.Inspect(fd.Body, func(nd ast.Node) bool {
+				switch x := nd.(type) {
+				case *ast.ReturnStmt:
+					for _, r := range x.Results {
+						if id, ok := unparen(r).(*ast.Ident); ok && info.Uses[id] == v {
+							returned = true
+						}
+					}
+				case *ast.AssignStmt:
+					for _, l := range x.Lhs {
+						if se, ok := unparen(l).(*ast.SelectorExpr); ok && se.Sel.Name == "CallDepth" {
+							if id, ok := unparen(se.X).(*ast.Ident); ok && info.Uses[id] == v {
+								assigned = true
+							}
+						}
+					}
+				}
+				return true
+			})
+			if !returned {
+				continue
+			}
+			n++
+			c.Ob(rule, funcKey(pk, fd)+"/"+v.Name(), fd, assigned, "the frame made current and returned has its CallDepth assigned here (a recycled frame keeps the depth of its previous use)")
+		}
+	}
+	if n < 2 {
+		c.Ob(rule, "fast/allocators", nil, false, fmt.Sprintf("%d functions make a new frame current, at least 2 expected (NewEnv, newEnv4Func)", n))
+	}
+}
+
+// ruleReleaseIntoOwnRun (O4): a frame is returned to the pool of the Run it was taken from, which is recorded in
+// the frame itself. The release functions of Env hand env.freeEnv the Run read from the receiver's own Run field,
+// not from another frame of the chain (Outer, Caller, FileEnv), which may belong to another goroutine.
+func ruleReleaseIntoOwnRun(c *Ctx, rule string) {
+	pk := c.P.Pkg("fast")
+	if pk == nil {
+		c.Fatal("package fast not loaded")
+		return
+	}
+	info := pk.TypesInfo
+	n := 0
+	for _, fd := range c.P.FuncsOf("fast") {
+		if fd.Body == nil || fd.Recv == nil || len(fd.Recv.List) != 1 || len(fd.Recv.List[0].Names) != 1 {
+			continue
+		}
+		recv := info.Defs[fd.Recv.List[0].Names[0]]
+		var di *defIndex
+		inspectCalls(fd.Body, func(call *ast.CallExpr) {
+			if funcFullName(calleeOf(info, call)) != "fast.Env.freeEnv" || len(call.Args) != 1 {
+				return
+			}
+			se, ok := unparen(call.Fun).(*ast.SelectorExpr)
+			if !ok {
+				return
+			}
+			if id, ok := unparen(se.X).(*ast.Ident); !ok || info.Uses[id] != recv {
+				return
+			}
+			if di == nil {
+				di = buildDefIndex(info, fd)
+			}
+			n++
+			arg := unparen(call.Args[0])
+			if id, ok := arg.(*ast.Ident); ok {
+				if d := di.single(info.Uses[id]); d != nil {
+					arg = unparen(d)
+				}
+			}
+			good := false
+			if s2, ok := arg.(*ast.SelectorExpr); ok && s2.Sel.Name == "Run" {
+				if id, ok := unparen(s2.X).(*ast.Ident); ok && info.Uses[id] == recv {
+					good = true
+				}
+			}
+			c.Ob(rule, funcKey(pk, fd)+"/release", call, good, "the frame is released into the Run recorded in the frame itself ("+exprString(arg)+")")
+		})
+	}
+	if n < 2 {
+		c.Ob(rule, "fast/releases", nil, false, fmt.Sprintf("%d release functions found, at least 2 expected (FreeEnv, freeEnv4Func)", n))
+	}
+}
+
+// ruleSavedEntryRestored (T1s): a declaration that remembers the previous entry of a registry map
+// (`old := c.Types[name]`) and has a deferred rollback that deletes the name on failure must also put the remembered
+// entry back in that rollback (`c.Types[name] = old`): deleting -- or leaving the half-built new entry -- where a
+// definition existed before makes a failed redefinition destroy the earlier one.
+func ruleSavedEntryRestored(c *Ctx, rule string) {
+	pk := c.P.Pkg("fast")
+	if pk == nil {
+		c.Fatal("package fast not loaded")
+		return
+	}
+	info := pk.TypesInfo
+	n := 0
+	for _, fd := range c.P.FuncsOf("fast") {
+		if fd.Body == nil {
+			continue
+		}
+		// saved entries: local := <sel>.<Field>[key] with Field a map
+		type saved struct {
+			obj types.Object
+			m   string // printed map expression
+		}
+		var saves []saved
+		for _, st := range fd.Body.List {
+			as, ok := st.(*ast.AssignStmt)
+			if !ok || as.Tok != token.DEFINE || len(as.Lhs) != 1 || len(as.Rhs) != 1 {
+				continue
+			}
+			ix, ok := unparen(as.Rhs[0]).(*ast.IndexExpr)
+			if !ok {
+				continue
+			}
+			if _, isMap := info.TypeOf(ix.X).Underlying().(*types.Map); !isMap {
+				continue
+			}
+			if _, isSel := unparen(ix.X).(*ast.SelectorExpr); !isSel {
+				continue
+			}
+			if id, ok := as.Lhs[0].(*ast.Ident); ok && info.Defs[id] != nil {
+				saves = append(saves, saved{info.Defs[id], exprString(ix.X)})
+			}
+		}
+		if len(saves) == 0 {
+			continue
+		}
+		ast.Inspect(fd.Body, func(nd ast.Node) bool {
+			ds, ok := nd.(*ast.DeferStmt)
+			if !ok {
+				return true
+			}
+			lit, ok := unparen(ds.Call.Fun).(*ast.FuncLit)
+			if !ok {
+				return true
+			}
+			for _, sv := range saves {
+				deletes, restores := false, false
+				ast.Inspect(lit.Body, func(m ast.Node) bool {
+					switch x := m.(type) {
+					case *ast.CallExpr:
+						if id, ok := x.Fun.(*ast.Ident); ok && id.Name == "delete" && len(x.Args) == 2 && exprString(x.Args[0]) == sv.m {
+							deletes = true
+						}
+					case *ast.AssignStmt:
+						if len(x.Lhs) == 1 && len(x.Rhs) == 1 {
+							if ix, ok := unparen(x.Lhs[0]).(*ast.IndexExpr); ok && exprString(ix.X) == sv.m {
+								if id, ok := unparen(x.Rhs[0]).(*ast.Ident); ok && info.Uses[id] == sv.obj {
+									restores = true
+								}
+							}
+						}
+					}
+					return true
+				})
+				if !deletes {
+					continue
+				}
+				n++
+				c.Ob(rule, funcKey(pk, fd)+"/"+sv.obj.Name(), ds, restores, "the rollback that deletes the name from "+sv.m+" also stores the remembered entry "+sv.obj.Name()+" back")
+			}
+			return true
+		})
+	}
+	if n < 2 {
+		c.Ob(rule, "fast/rollbacks", nil, false, fmt.Sprintf("%d rollbacks over a remembered registry entry found, at least 2 expected", n))
+	}
+}
+
+// ruleReceiverAdjustmentPairs (M8): when a method is reached through embedded fields the receiver may have to be
+// addressed (value found, pointer receiver) or dereferenced (pointer found, value receiver). The two cases are
+// computed as a mutually exclusive pair of flags (`a := !p && q`, `d := p && !q`, or the pair returned by the
+// function that computes them). Every run-time closure that applies the first adjustment under `if a` applies the
+// second in its `else if d`: an arm without it calls a value-receiver method with a pointer.
+func ruleReceiverAdjustmentPairs(c *Ctx, rule string) {
+	pk := c.P.Pkg("fast")
+	if pk == nil {
+		c.Fatal("package fast not loaded")
+		return
+	}
+	info := pk.TypesInfo
+	// producers: functions whose named bool results are defined as the exclusive pair
+	isPair := func(a, d ast.Expr) bool {
+		ba, ok1 := unparen(a).(*ast.BinaryExpr)
+		bd, ok2 := unparen(d).(*ast.BinaryExpr)
+		if !ok1 || !ok2 || ba.Op != token.LAND || bd.Op != token.LAND {
+			return false
+		}
+		neg := func(e ast.Expr) (string, bool) {
+			if u, ok := unparen(e).(*ast.UnaryExpr); ok && u.Op == token.NOT {
+				return exprString(u.X), true
+			}
+			return exprString(e), false
+		}
+		ax, axn := neg(ba.X)
+		ay, ayn := neg(ba.Y)
+		dx, dxn := neg(bd.X)
+		dy, dyn := neg(bd.Y)
+		return ax == dx && ay == dy && axn != dxn && ayn != dyn && axn != ayn
+	}
+	type pair struct{ a, d types.Object }
+	producers := map[*types.Func][2]int{} // result indexes of the pair
+	localPairs := map[*ast.FuncDecl][]pair{}
+	for _, fd := range c.P.FuncsOf("fast") {
+		if fd.Body == nil {
+			continue
+		}
+		defs := map[types.Object]ast.Expr{}
+		ast.Inspect(fd.Body, func(nd ast.Node) bool {
+			if as, ok := nd.(*ast.AssignStmt); ok && len(as.Lhs) == len(as.Rhs) {
+				for i, l := range as.Lhs {
+					if id, ok := l.(*ast.Ident); ok && info.ObjectOf(id) != nil && isBoolType(info.ObjectOf(id).Type()) {
+						if _, seen := defs[info.ObjectOf(id)]; !seen {
+							defs[info.ObjectOf(id)] = as.Rhs[i]
+						}
+					}
+				}
+			}
+			return true
+		})
+		for a, ea := range defs {
+			for d, ed := range defs {
+				if a != d && isPair(ea, ed) {
+					if ua, ok := unparen(ea).(*ast.BinaryExpr); ok {
+						if _, firstNeg := unparen(ua.X).(*ast.UnaryExpr); firstNeg {
+							localPairs[fd] = append(localPairs[fd], pair{a, d})
+							// named results?
+							if fd.Type.Results != nil {
+								idx := 0
+								ia, id2 := -1, -1
+								for _, f := range fd.Type.Results.List {
+									for _, nm := range f.Names {
+										if info.Defs[nm] == a {
+											ia = idx
+										}
+										if info.Defs[nm] == d {
+											id2 = idx
+										}
+										idx++
+									}
+								}
+								if ia >= 0 && id2 >= 0 {
+									if fn, ok := info.Defs[fd.Name].(*types.Func); ok {
+										producers[fn] = [2]int{ia, id2}
+									}
+								}
+							}
+						}
+					}
+				}
+			}
+		}
+	}
+	n := 0
+	for _, fd := range c.P.FuncsOf("fast") {
+		if fd.Body == nil {
+			continue
+		}
+		pairs := append([]pair{}, localPairs[fd]...)
+		ast.Inspect(fd.Body, func(nd ast.Node) bool {
+			as, ok := nd.(*ast.AssignStmt)
+			if !ok || len(as.Rhs) != 1 {
+				return true
+			}
+			call, ok := unparen(as.Rhs[0]).(*ast.CallExpr)
+			if !ok {
+				return true
+			}
+			if idx, ok := producers[calleeOf(info, call)]; ok && len(as.Lhs) > idx[0] && len(as.Lhs) > idx[1] {
+				ia, ok1 := as.Lhs[idx[0]].(*ast.Ident)
+				id2, ok2 := as.Lhs[idx[1]].(*ast.Ident)
+				if ok1 && ok2 && info.ObjectOf(ia) != nil && info.ObjectOf(id2) != nil {
+					pairs = append(pairs, pair{info.ObjectOf(ia), info.ObjectOf(id2)})
+				}
+			}
+			return true
+		})
+		if len(pairs) == 0 {
+			continue
+		}
+		k := 0
+		ast.Inspect(fd.Body, func(nd ast.Node) bool {
+			ifs, ok := nd.(*ast.IfStmt)
+			if !ok {
+				return true
+			}
+			id, ok := unparen(ifs.Cond).(*ast.Ident)
+			if !ok {
+				return true
+			}
+			for _, p := range pairs {
+				if info.Uses[id] != p.a {
+					continue
+				}
+				// only inside run-time closures
+				n++
+				k++
+				good := false
+				if e, ok := ifs.Else.(*ast.IfStmt); ok {
+					if eid, ok := unparen(e.Cond).(*ast.Ident); ok && info.Uses[eid] == p.d {
+						good = true
+					}
+				}
+				c.Ob(rule, fmt.Sprintf("%s/adjust#%d", funcKey(pk, fd), k), ifs, good, "the receiver adjustment under `if "+p.a.Name()+"` is paired with `else if "+p.d.Name()+"`")
+			}
+			return true
+		})
+	}
+	if n < 4 {
+		c.Ob(rule, "fast/adjustments", nil, false, fmt.Sprintf("%d receiver adjustments found, at least 4 expected", n))
+	}
+}
+
+// ruleBreakpointRedirect (B3r): after the debugger answered a breakpoint with anything but "continue", execution
+// goes on through Run.Interrupt (the single-stepping statement). In Comp.breakpoint the redirection
+// `stmt = run.Interrupt` is guarded by the debugger's answer alone (one comparison with base.SigNone).
+func ruleBreakpointRedirect(c *Ctx, rule string) {
+	pk := c.P.Pkg("fast")
+	fd := c.P.Func("fast.Comp.breakpoint")
+	if pk == nil || fd == nil || fd.Body == nil {
+		c.Ob(rule, "fast.Comp.breakpoint", nil, false, "anchor function not found")
+		return
+	}
+	info := pk.TypesInfo
+	n := 0
+	ast.Inspect(fd.Body, func(nd ast.Node) bool {
+		ifs, ok := nd.(*ast.IfStmt)
+		if !ok {
+			return true
+		}
+		for _, st := range ifs.Body.List {
+			as, ok := st.(*ast.AssignStmt)
+			if !ok || len(as.Lhs) != 1 || len(as.Rhs) != 1 || fieldOfStruct(info, as.Rhs[0], "fast", "Run") != "Interrupt" {
+				continue
+			}
+			n++
+			atoms := andAtoms(ifs.Cond)
+			good := false
+			if len(atoms) == 1 {
+				if be, ok := unparen(atoms[0]).(*ast.BinaryExpr); ok && be.Op == token.NEQ {
+					for _, side := range []ast.Expr{be.X, be.Y} {
+						if o := usedObj(info, side); o != nil && o.Name() == "SigNone" {
+							good = true
+						}
+					}
+				}
+			}
+			c.Ob(rule, fmt.Sprintf("fast.Comp.breakpoint/redirect#%d", n), ifs, good, "execution continues through Run.Interrupt whenever the debugger's answer is not SigNone (condition: "+exprString(ifs.Cond)+")")
+		}
+		return true
+	})
+	if n == 0 {
+		c.Ob(rule, "fast.Comp.breakpoint/redirect", fd, false, "no redirection to Run.Interrupt found: anchor missing")
+	}
+}
